@@ -361,6 +361,31 @@ pub fn check(c: &PgCase) -> Verdict {
     let want_pool = cfg.pool.unwrap_or_default();
     let any_timeout = want_pool.timeouts.wait.is_some() || want_pool.timeouts.create.is_some() || want_pool.timeouts.recycle.is_some();
     let want_method = cfg.manager.clone().unwrap_or_default().recycling_method;
+    // the builder carries the whole pool section (queue_mode is only visible there)
+    if expected_err.is_none() {
+        match catch_unwind(AssertUnwindSafe(|| cfg.builder(NoTls))) {
+            Err(p) => v.fail("builder-panicked", format!("builder() panicked: {:?}", vcore::sched::classify_panic(p))),
+            Ok(Err(e)) => v.fail("builder-config-error", format!("builder() failed with {:?} for a valid config", e)),
+            Ok(Ok(b)) => {
+                let dbg = format!("{:?}", b);
+                for want in [
+                    format!("max_size: {}", want_pool.max_size),
+                    format!("queue_mode: {:?}", want_pool.queue_mode),
+                    format!("wait: {:?}", want_pool.timeouts.wait),
+                    format!("create: {:?}", want_pool.timeouts.create),
+                    format!("recycle: {:?}", want_pool.timeouts.recycle),
+                    format!("recycling_method: {:?}", want_method),
+                ] {
+                    if !dbg.contains(&want) {
+                        v.fail("builder-section-lost", format!("builder() does not carry `{}`: {}", want, dbg));
+                    }
+                }
+            }
+        }
+        if v.violation.is_some() {
+            return v;
+        }
+    }
     let rt = if c.runtime { Some(Runtime::Tokio1) } else { None };
     let cp = catch_unwind(AssertUnwindSafe(|| cfg.create_pool(rt, NoTls)));
     match cp {
